@@ -5,7 +5,8 @@ from vlib.runner import Failure
 
 PID = "C07"
 LEAN_MODULE = "NunVerif.Props.C07Wire"
-THEOREMS = ["Nun.C07_election_terminates", "Nun.resume_decreases", "Nun.C07_lone_member_wins_at_once", "Nun.C07_older_candidate_wins_the_comparison",
+THEOREMS = ["Nun.C07_candidate_line_is_generated", "Nun.C04_wire_arm_formats", "Nun.C04_election_active_line_is_generated", "Nun.C04_leave_line_is_generated", "Nun.C04_join_line_is_generated", "Nun.C04_set_primary_line_is_generated",
+            "Nun.C07_election_terminates", "Nun.resume_decreases", "Nun.C07_lone_member_wins_at_once", "Nun.C07_older_candidate_wins_the_comparison",
             "Nun.parse_candidateLine", "Nun.replicateRequestCore_election", "Nun.parse_setPrimaryLine", "Nun.parse_setSecoundaryLine", "Nun.parseU128_ofNat"]
 
 def roles(net, live):
